@@ -95,6 +95,22 @@ def seeds():
     return ('| seed | change | needs in order to manifest | result of the property\'s check |\n|---|---|---|---|\n' + '\n'.join(rows))
 
 
+def translators():
+    import ast
+    import glob
+    rows = []
+    for f in sorted(glob.glob(os.path.join(VERIF, 'translator', 'gen_*.py'))):
+        t = ast.parse(open(f).read())
+        doc = (ast.get_docstring(t) or '').strip()
+        first = doc.split('\n\n')[0].replace('\n', ' ')
+        outs = []
+        for n in t.body:
+            if isinstance(n, ast.Assign) and any(getattr(x, 'id', None) == 'OUTPUTS' for x in n.targets):
+                outs = [e.value for e in n.value.elts]
+        rows.append('| `%s` | %s | %s |' % (os.path.basename(f), ', '.join('`Gen/%s`' % o for o in outs), first.replace('|', '\\|')[:420]))
+    return '| translator | output | reads (from its docstring) |\n|---|---|---|\n' + '\n'.join(rows)
+
+
 def part(name):
     p = os.path.join(VERIF, 'docs', 'parts', name)
     return open(p).read() if os.path.exists(p) else '(to be written)'
@@ -102,6 +118,7 @@ def part(name):
 
 t = open(os.path.join(VERIF, 'docs', 'DESIGN.template.md')).read()
 t = t.replace('@@PER_PROPERTY@@', per_property()).replace('@@FINDINGS@@', findings()).replace('@@SEEDS@@', seeds())
+t = t.replace('@@TRANSLATORS@@', translators())
 t = t.replace('@@VALIDATION@@', part('validation.md')).replace('@@DIFFS@@', part('diffs.md'))
 open(os.path.join(VERIF, 'DESIGN.md'), 'w').write(t)
 print('DESIGN.md written (%d lines)' % t.count('\n'))
